@@ -52,6 +52,10 @@ for pid, text, tech in [
      "property-based testing: independent comment scanner, multiset and placement oracles (Hypothesis)"),
     ("C03", "Generated-input search over dictionaries (loaded, built through the dict API, created) and, with a Hypothesis rule-based state machine, over histories of dict-API edits; oracle: an independent character-level reader of the printed text whose event stream must equal the events and MapServer lexical classes derived from the dictionary and the schema slot of each value; mappyfile's parser is never used.",
      "property-based / model-based testing: independent reader oracle, Hypothesis stateful machine for edit histories"),
+    ("C15", "Generated-input search: Hypothesis cuts generated documents into include trees (fan-out, depth 0..7, sub-directories, relative / absolute paths, quoting, comments, CRLF) on the real file system and loads them through open / load / loads from differing working directories; oracle: the harness's own textual substitution, error expectations for depth >= 6 / cycles / missing files with file opens counted by an audit hook, and write-back of unexpanded directives.",
+     "property-based testing: differential against textual substitution over generated file trees (Hypothesis)"),
+    ("C20", "Generated-input search: Unicode documents through open / load / loads / save / dump / dumps on real files and streams, and the mappyfile command run as real subprocesses over drawn file sets and options; oracle: differential between front ends, string survival, in-process API results as the expectation for CLI output bytes, stdout lines and exit status (boundaries 255 / 256 / 257 always exercised).",
+     "property-based testing: differential between front ends, subprocess CLI against in-process API (Hypothesis)"),
     ("C16", DOC + "oracle: an independent reader of the printed text checks the layout contract line by line.",
      "property-based testing: independent reader / validity predicate over documents x option sets (Hypothesis)"),
     ("C17", "Exhaustive breadth-first exploration of every reachable state over a small key/value alphabet with every operation applied in every state, exhaustive operation sequences from the empty dict up to a length bound, and a Hypothesis rule-based state machine for long histories; oracle: reference model (OrderedDict keyed by lower-cased keys + default rule).",
